@@ -119,7 +119,7 @@ def judgeAll (cases : Array Case) (obs : Array ObsLine) (f : Case â†’ ObsLine â†
       match f c o with
       | .ok => pure ()
       | .disagree w e g =>
-        let j := Json.mkObj [("id", (c.id : Json)), ("what", (w : Json)), ("op", (c.op : Json)), ("a", c.args), ("expected", (e : Json)), ("observed", (g : Json)), ("tag", (c.tag : Json))]
+        let j := Json.mkObj [("id", (c.id : Json)), ("what", (w : Json)), ("op", (c.op : Json)), ("a", c.args), ("expected", (e : Json)), ("observed", (g : Json)), ("tag", (c.tag : Json)), ("note", c.note)]
         r := { r with disagreements := r.disagreements.push j }
       | .violation w d =>
         let j := Json.mkObj [("id", (c.id : Json)), ("what", (w : Json)), ("op", (c.op : Json)), ("a", c.args), ("detail", (d : Json)), ("tag", (c.tag : Json))]
